@@ -54,7 +54,8 @@ BaseRows == <<"text", "begin_group", "text", "end_group", "begin_repeat", "int",
 Triggers == {"disabled", "nolabel_group", "nolabel_repeat", "deprecated", "no_maxpix", "ext_nofilter", "choice_nolabel",
              "dup_id", "or_other_trans", "comment_row",
              "noclean",      \* (a modifier, not a trigger: settings clean_text_values = no; warnings and their rows are unchanged)
-             "allowdup"}     \* (a modifier: settings allow_choice_duplicates = yes; warnings are unchanged)
+             "allowdup",     \* (a modifier: settings allow_choice_duplicates = yes; warnings are unchanged)
+             "fl_multi"}     \* (a modifier: the group's appearance is "w2 field-list" - only the exact appearance field-list exempts an unlabeled group)
 Appended == <<"deprecated", "ext_nofilter", "comment_row">>       \* triggers that append a row, in this order
 AppendIndex(T, t) == Cardinality({i \in 1..Len(Appended) : Appended[i] \in T /\ \E j \in 1..Len(Appended) : (Appended[j] = t /\ i < j)})
 RowOfAppended(T, t, blanks) == Len(BaseRows) + 2 + blanks + AppendIndex(T, t)
@@ -71,6 +72,7 @@ ExpOne(T, t, blanks) ==
     [] t = "comment_row"    -> {<<"skip_row", RowOfAppended(T, t, blanks)>>}
     [] t = "noclean"        -> {}
     [] t = "allowdup"       -> {}
+    [] t = "fl_multi"       -> {}
 ExpWarnings(T, blanks) == UNION {ExpOne(T, t, blanks) : t \in T}
 
 (* ------------------------------------------------------------------ generators *)
